@@ -6,13 +6,20 @@
 (*   MC_Raft3_prevote.cfg, _prevote_full.cfg, _prevote_faults.cfg, _sim_prevote.cfg,                *)
 (*   _sim1_prevote.cfg    the same instances with PreVote = TRUE (two-phase election); the quick    *)
 (*                        exhaustive one explores Campaign() of nodes 1 and 2 only                  *)
+(*   MC_Raft3_conf.cfg, _conf_full.cfg, _sim_conf*.cfg   ConfChange = TRUE: simple membership changes (one voter added *)
+(*                        or removed at a time); three nodes of which InitVoters are voters at the start                   *)
 (*   MC_RaftAtk_*.cfg     one weakened rule each; EmitAttack prints the counterexample schedule     *)
 EXTENDS EtcdRaft, TLCExt, Json
 
+RECURSIVE Sorted(_)
+Sorted(S) == IF S = {} THEN <<>> ELSE LET x == Min(S) IN <<x>> \o Sorted(S \ {x})
+
+(* cfg = the voters of the node's own configuration; pr = the leader's Progress map: one record per id of that configuration *)
 ProjNode(s, i) ==
     [up |-> s.role[i] # "D", term |-> s.term[i], vote |-> s.vote[i], role |-> s.role[i], lead |-> s.lead[i],
      commit |-> s.commit[i], applied |-> s.applied[i], hs |-> s.hs[i], sc |-> s.sc[i], log |-> s.log[i],
-     pr |-> IF s.role[i] = "L" THEN [j \in 1..N |-> s.pr[i][j]] ELSE <<>>]
+     cfg |-> Sorted(s.cfg[i]),
+     pr |-> IF s.role[i] = "L" THEN LET ids == Sorted(s.cfg[i]) IN [k \in 1..Len(ids) |-> [id |-> ids[k]] @@ s.pr[i][ids[k]]] ELSE <<>>]
 
 RECURSIVE SetToSeq(_)
 SetToSeq(S) == IF S = {} THEN <<>> ELSE LET x == CHOOSE x \in S : TRUE IN <<x>> \o SetToSeq(S \ {x})
@@ -26,6 +33,10 @@ ScheduleNoState == LET tr == Trace IN [k \in 1..(Len(tr) - 1) |-> [a |-> tr[k + 
 CONSTANT SimDepth
 (* -simulate: print the behaviour when it reaches SimDepth states *)
 EmitSim == TLCGet("level") # SimDepth \/ PrintT("SCHEDULE " \o ToJson(Schedule))
+
+(* ACTION_CONSTRAINT of the -simulate instances with ConfChange = TRUE: the random walk spends its crash budget only once *)
+(* a conf change is committed somewhere, so that crashes and restarts meet switched configurations                        *)
+CrashAfterConfChange == act'.name = "Crash" => \E i \in Server : \E k \in 1..commit[i] : log[i][k].c # 0
 
 (* weakened instances: print the schedule that breaks safety, then report the violation *)
 EmitAttackM == (Safety /\ MatchSound) \/ (PrintT("ATTACK " \o ToJson(ScheduleNoState)) /\ FALSE)
